@@ -65,26 +65,82 @@ def build_vx():
     return out
 
 
+FACT_SECTIONS = ['Consts', 'MsgTables', 'Writers', 'Structs', 'Accesses', 'RaceAux', 'Cmd', 'Sup', 'ReadFacts', 'Chans', 'Gate']
+GENBASE = os.path.join(VERIF, 'pinned', 'gen')     # Gen modules as regenerated from the pinned tree (committed)
+
+
+def _fallback(name):
+    """a Gen module that could not be regenerated keeps its last content; on a fresh checkout that is the baseline"""
+    dst = os.path.join(GEN, name + '.lean')
+    if not os.path.exists(dst) and os.path.exists(os.path.join(GENBASE, name + '.lean')):
+        shutil.copy(os.path.join(GENBASE, name + '.lean'), dst)
+
+
+def _blocks(text):
+    """{lean name: block text} of a go2lean output / an existing Funcs.lean (blocks are delimited by BEGIN/END lines)"""
+    out, cur, name = {}, None, None
+    for l in text.split('\n'):
+        if l.startswith('-- BEGIN '):
+            name, cur = l[len('-- BEGIN '):].strip(), []
+        elif l.startswith('-- END ') and cur is not None:
+            out[name] = '\n'.join(cur)
+            cur = None
+        elif cur is not None:
+            cur.append(l)
+    return out
+
+
 def regen():
-    """Regenerate lean/LLRP/Gen/*.lean from /repo's working tree. Returns a list of (translator, message) failures."""
+    """Regenerate lean/LLRP/Gen/*.lean from /repo's working tree. Returns a list of (unit, message) failures.
+
+    Units are independent: `facts:<Section>` (one Gen module each), `go2lean:<function>` (one block of Funcs.lean each),
+    `yaml2lean`. A unit that cannot be regenerated keeps its last regenerated content (the baseline under pinned/gen on
+    a fresh checkout): the properties that use it lose that obligation and search for a failing input against the
+    last model the translator understood; the others are not affected."""
     os.makedirs(GEN, exist_ok=True)
     failures = []
     vx = build_vx()
     # facts
     p = subprocess.run([vx, 'facts', REPO], stdout=subprocess.PIPE, stderr=subprocess.PIPE, text=True, env=GOENV)
     if p.returncode != 0:
-        failures.append(('vx facts', p.stderr.strip()))
+        for sec in FACT_SECTIONS:
+            failures.append(('facts:' + sec, 'vx facts: ' + p.stderr.strip()[-1200:]))
+            _fallback(sec)
     else:
         write_if_changed(os.path.join(BUILD, 'facts.json'), p.stdout)
         rc, o = run([sys.executable, os.path.join(VERIF, 'translators', 'facts2lean.py'), os.path.join(BUILD, 'facts.json'), GEN])
+        seen = set()
+        for l in o.split('\n'):
+            m = re.match(r'FAILED (\w+): (.*)', l)
+            if m:
+                seen.add(m.group(1))
+                failures.append(('facts:' + m.group(1), m.group(2)[:1500]))
+                _fallback(m.group(1))
         if rc != 0:
-            failures.append(('facts2lean', o.strip()))
+            for sec in FACT_SECTIONS:
+                if sec not in seen:
+                    failures.append(('facts:' + sec, 'facts2lean: ' + o.strip()[-1200:]))
+                    _fallback(sec)
     # go2lean
+    funcs = os.path.join(GEN, 'Funcs.lean')
+    if not os.path.exists(funcs) and os.path.exists(os.path.join(GENBASE, 'Funcs.lean')):
+        shutil.copy(os.path.join(GENBASE, 'Funcs.lean'), funcs)
+    old = _blocks(open(funcs).read()) if os.path.exists(funcs) else {}
     p = subprocess.run([vx, 'go2lean', REPO], stdout=subprocess.PIPE, stderr=subprocess.PIPE, text=True, env=GOENV)
     if p.returncode != 0:
-        failures.append(('go2lean', p.stderr.strip()))
+        for name in sorted(old) or ['*']:
+            failures.append(('go2lean:' + name, p.stderr.strip()[-1200:]))
     else:
-        write_if_changed(os.path.join(GEN, 'Funcs.lean'), p.stdout.replace('namespace LLRP.Gen\n', 'set_option linter.unusedVariables false\nnamespace LLRP.Gen\n', 1))
+        out = []
+        for l in p.stdout.split('\n'):
+            m = re.match(r'-- FAILED (\w+): (.*)', l)
+            if m:
+                failures.append(('go2lean:' + m.group(1), m.group(2)[:1500]))
+                if m.group(1) in old:       # keep the last translation this translator produced for it
+                    out += ['-- BEGIN ' + m.group(1), old[m.group(1)], '-- END ' + m.group(1)]
+                continue
+            out.append(l)
+        write_if_changed(funcs, '\n'.join(out).replace('namespace LLRP.Gen\n', 'set_option linter.unusedVariables false\nnamespace LLRP.Gen\n', 1))
     # yaml2lean
     os.makedirs(os.path.join(BUILD, 'gen', 'llrp'), exist_ok=True)
     p = subprocess.run([sys.executable, os.path.join(VERIF, 'translators', 'yaml2lean.py'), os.path.join(REPO, 'pkg/llrp/messages.yaml'), 'LLRP.Gen',
@@ -92,8 +148,9 @@ def regen():
                        stdout=subprocess.PIPE, stderr=subprocess.PIPE, text=True)
     if p.returncode != 0:
         failures.append(('yaml2lean', p.stderr.strip()))
+        _fallback('Schema')
     else:
-        write_if_changed(os.path.join(GEN, 'Schema.lean'), p.stdout)
+        write_if_changed(os.path.join(GEN, 'Schema.lean'), p.stdout.replace(os.path.join(REPO, 'pkg/llrp/messages.yaml'), '<repo>/pkg/llrp/messages.yaml'))
     # pinned layout table (C02): its Lean form always comes from /verif/pinned/messages.yaml
     pin = os.path.join(VERIF, 'pinned', 'messages.yaml')
     p = subprocess.run([sys.executable, os.path.join(VERIF, 'translators', 'yaml2lean.py'), pin, 'LLRP.Pinned'],
@@ -104,6 +161,42 @@ def regen():
         os.makedirs(os.path.join(LEAN, 'LLRP', 'Pinned'), exist_ok=True)
         write_if_changed(os.path.join(LEAN, 'LLRP', 'Pinned', 'Schema.lean'), p.stdout.replace(pin, 'pinned/messages.yaml'))
     return failures
+
+
+def gen_uses(props_mod, modules):
+    """which regenerated units a property depends on: the Gen modules imported by the import closure of its Props
+    module and of the model/oracle modules its check lists, and the text of those modules (to look up go2lean names)"""
+    seen, todo, text = set(), [props_mod] + list(modules), []
+    gen = set()
+    while todo:
+        m = todo.pop()
+        if m in seen or not m.startswith('LLRP.'):
+            continue
+        seen.add(m)
+        if m.startswith('LLRP.Gen.'):
+            gen.add(m[len('LLRP.Gen.'):])
+            continue
+        path = os.path.join(LEAN, *m.split('.')) + '.lean'
+        if not os.path.exists(path):
+            continue
+        t = open(path).read()
+        text.append(t)
+        todo += re.findall(r'^import (LLRP\.[\w.]+)', t, re.M)
+    return gen, '\n'.join(text)
+
+
+def unit_relevant(unit, uses):
+    gen, text = uses
+    if unit.startswith('facts:'):
+        return unit[6:] in gen
+    if unit.startswith('go2lean:'):
+        name = unit[8:]
+        return 'Funcs' in gen and (name == '*' or re.search(r'\b%s(_safe)?\b' % re.escape(name), text) is not None)
+    if unit.startswith('yaml2lean(pinned)'):
+        return True if 'LLRP.Pinned' in text else False
+    if unit.startswith('yaml2lean'):
+        return 'Schema' in gen
+    return True
 
 
 # ------------------------------------------------------------------ Lean obligations
